@@ -98,9 +98,9 @@ ADDENDA2 = {
     "C02": "Also: the mpmc-unbounded hand-off session (values bound to parked receivers at publish time) is unreachable on the live control-flow graph. Batch fill functions never hand the caller's iterator to a recursive call of themselves before their own next() calls.",
     "C04": "Also: a counted clone is born open (closed = constant false on every path that registers it); a clone is registered only behind the not-closed edge of the source "
            "handle's flag (a closed handle's clone does not revive its side); a Disconnected read off a waiter state stored by the closer is followed by a re-drain wherever the "
-           "channel has a buffer; oneshot observers read sender_count before the state.",
+           "channel has a buffer; oneshot observers read sender_count before the state. The close path of a cloneable receiver type dequeues nothing; the send-side instances of C06-6 are reported as C04-12.",
     "C05": "Also: where one notify can publish several items but wakes one waiter, consumers pass the wake on (live-CFG baton rule); a counted clone is born open, so the "
-           "last-handle disconnect stays reachable. A count-guarded notify (`if got > 0`) may be skipped only on the zero outcome of that count; every successful dequeue of the wake-one protocol is followed by the baton on every path.",
+           "last-handle disconnect stays reachable. A count-guarded notify (`if got > 0`) may be skipped only on the zero outcome of that count; every successful dequeue of the wake-one protocol is followed by the baton on every path. Bounded mpmc: freed space always leads to a scan of the waiting senders, and a claimed sender is unlinked.",
     "C03": "Also: the `valid` count of a claimed run is min(claimed, window_end.saturating_sub(ticket)) in both claim functions.",
     "C07": "Also: modify closures never replace the cursor list by captured data; the spmc receive forms decide Disconnected only after another look at head/the slot (27 sites shared with C04-5). A publish that writes several slots drains each written slot's waker list.",
     "C08": "Also: the closures given to left_right::modify update the subscriber list in place, never by installing a snapshot computed earlier (lost update). Nothing removes a topic's entry from the dispatcher map.",
@@ -112,9 +112,9 @@ ADDENDA2 = {
     "C17": "Also: the reference clock for persisted remaining lifetimes is sampled before the liveness test.",
     "C18": "Also: only the registration functions mutate a container's provider table; the resolution path never writes back.",
     "C19": "Also: the per-actor logger-rule lookup in process_event is unconditional (every actor's rules take part in the most-specific-logger decision). The `::`-boundary test is upstream of the longest-prefix selection in find_most_specific_rule; sends are recognised by position in the dispatch path, not by helper names.",
-    "C01": "Also: in the bounded mpsc dequeue functions every advance of the consumer position follows a reset of the slot state to EMPTY (value slots and SKIP tombstones alike).",
-    "C06": "Also: the baton rule of C05-6 is reported for the futures (a pending receive is woken for items another receiver leaves behind).",
-    "C09": "Also: only the admitted functions (consumer pop, single producer's overwrite, teardown) destroy or move out MaybeUninit payload cells; a new destroyer fails closed.",
+    "C01": "Also: in the bounded mpsc dequeue functions every advance of the consumer position follows a reset of the slot state to EMPTY (value slots and SKIP tombstones alike). A waiter state becomes CANCELLED only by compare_exchange from WAITING.",
+    "C06": "Also: the baton rule of C05-6 is reported for the futures (a pending receive is woken for items another receiver leaves behind). The bounded-mpmc instances of C05-8 are reported as C06-8.",
+    "C09": "Also: only the admitted functions (consumer pop, single producer's overwrite, teardown) destroy or move out MaybeUninit payload cells; a new destroyer fails closed. Oneshot: every path from the success edge of the SENT->TAKEN transition empties the slot.",
     "C14": "Also: the helper on_admit hands the cost to records it on every edge on which it found the key tracked.",
     "C15": "Also: the miss paths re-check the store under the stripe guard before inserting a marker (2 demonstrated known findings: the loader can run twice for one miss).",
 }
